@@ -32,7 +32,7 @@ ASSUMPTIONS = ["language names shorter than 3 characters and upper-case codes ar
                "an unlabeled group whose appearance merely contains field-list among other words is ambiguous and not generated"]
 
 L1, L2 = "French (fr)", "Deutsch (de)"
-SURVEY_COLS = ["label", "hint", "guidance_hint", "image", "audio", "constraint_message", "required_message"]
+SURVEY_COLS = ["label", "hint", "guidance_hint", "image", "audio", "constraint_message", "required_message", "no_app_error_string"]
 CHOICE_COLS = ["label", "image", "audio"]
 VALID_CODES = ["en", "fr", "es", "de", "sw", "am", "pt", "zh", "ar", "hi", "tlh", "yue", "ceb"]
 INVALID_CODES = ["xx", "zzz9", "123", "en-", "e n", "english", "q"]
